@@ -114,6 +114,13 @@ def model_request(kind, p):
         return ("cbldm", [p["k"], ids_of(p), p["vals"], 1 if tl > 0 else 0, d, 0 if p.get("d_float") else 1, -1])
     if kind == "numitems":
         return ("numitems", [p["keep"], p["k"], p["i"]])
+    if kind == "ilp_full":
+        o, ok = p["objective"]
+        n = len(p["vals"])
+        copies = p.get("copies", 1)
+        copies = [copies] * n if isinstance(copies, int) else copies
+        ws = p.get("weights") or [1] * p["k"]
+        return ("ilp_formulate", [p["vals"], p["k"], copies, ws, o, ok, p.get("extras", [])])
     if kind == "binner_ops":
         return ("heap_run", [p["ops"]])
     if kind == "bc_util":
@@ -174,6 +181,8 @@ def norm_model(kind, p, r):
         return {"bins": r[0]}
     if kind == "numitems":
         return {"num": r}
+    if kind == "ilp_full":
+        return {"form": r}
     if kind == "bc_util":
         return {"bool": r} if p["fn"] == "isdom" else {"lists": r}
     return {"raw": r}
@@ -222,6 +231,8 @@ def compare(kind, p, how, impl, model):
         return None
     if "model_error" in model:
         return f"model error: {model['model_error']}"
+    if kind == "ilp_full":
+        return compare_ilp(p, impl, model)
     if "exc" in impl or "exc" in model:
         if impl.get("exc") != model.get("exc"):
             return f"impl {short(impl)} vs model {short(model)}"
@@ -240,7 +251,7 @@ def compare(kind, p, how, impl, model):
             a, b = canon_bins(p, ib, how), canon_bins(p, mb, how)
             return None if a == b else f"impl {a} vs model {b}"
         if how == "count":
-            ni = len(impl["bins"]) if "bins" in impl else impl.get("num")
+            ni = len(impl["bins"]) if "bins" in impl else (len(impl["lists"]) if "lists" in impl else (len(impl["sums"]) if "sums" in impl else impl.get("num")))
             return None if ni == len(mb) else f"number of bins impl {ni} vs model {len(mb)}"
         if how == "value":
             o, ok = p.get("objective", [2, 0])
@@ -330,3 +341,48 @@ def sums_of_result(out, impl):
 def short(x, n=300):
     s = str(x)
     return s if len(s) <= n else s[:n] + "..."
+
+
+def _close(n, d, hx):
+    import math
+    return math.isclose(n / d, float.fromhex(hx), rel_tol=1e-9, abs_tol=1e-12)
+
+
+def compare_ilp(p, impl, model):
+    """captured mip model (number of integer variables >= 0, objective to minimise, constraints in insertion
+    order; each expression = terms merged per variable and sorted by index + constant, everything on the
+    left-hand side) against formulate of Model/ILP.v; coefficients value/weight compared with relative tolerance
+    1e-9 because python-mip computes expr * (1.0 / w)"""
+    cap = impl.get("cap") or {}
+    if "form" not in cap:
+        return None          # the solver was never reached (pre-solver exception): judged separately
+    nv, obj, cons, is_min, int_lb0 = cap["form"]
+    mnv, mobj, mcons = model["form"]
+    if not is_min or not int_lb0:
+        return f"captured model is not a minimisation over non-negative integer variables (min={is_min}, int&lb0={int_lb0})"
+    if nv != mnv:
+        return f"number of variables impl {nv} vs model {mnv}"
+
+    def expr_eq(ie, me, where):
+        it, ic = ie[0], ie[1]
+        mt, mc = me
+        if len(it) != len(mt):
+            return f"{where}: impl terms {it} vs model {mt}"
+        for (iv, ih), (mv, (n, d)) in zip(it, mt):
+            if iv != mv or not _close(n, d, ih):
+                return f"{where}: variable {iv} coefficient {float.fromhex(ih)} vs model variable {mv} coefficient {n}/{d}"
+        if not _close(mc[0], mc[1], ic):
+            return f"{where}: constant {float.fromhex(ic)} vs model {mc[0]}/{mc[1]}"
+        return None
+    t = expr_eq(obj, mobj, "objective")
+    if t:
+        return t
+    if len(cons) != len(mcons):
+        return f"number of constraints impl {len(cons)} vs model {len(mcons)}"
+    for i, (ic, (me, ms)) in enumerate(zip(cons, mcons)):
+        t = expr_eq(ic, me, f"constraint {i}")
+        if t:
+            return t
+        if ic[2] != ms:
+            return f"constraint {i}: sense impl {ic[2]!r} vs model {ms!r}"
+    return None
